@@ -45,7 +45,7 @@ CONSTANTS Tick,         \* ring-clock units per tick
           Offs,         \* offsets of reads / writes
           RLens,        \* read buffer lengths
           BadFlags,     \* subset of BOOLEAN: may an entry carry an unsupported flag
-          CtlOps,       \* subset of {"dropring","close","open","shimw","crash"}
+          CtlOps,       \* subset of {"dropring","close","open","shimw","crash","submitbad"}
           Modes,        \* access modes a re-opened handle may have: subset of {"rw","ro","wo","ao","wa","ra"}
                         \* (ao = append only, wa = write+append, ra = read+append)
           AllowDup,     \* BOOLEAN: may the consumer push a copy of an outstanding write / fsync with the same user_data
@@ -167,6 +167,13 @@ Submit(r) ==
     /\ last' = [a |-> "submit", r |-> r, n |-> Len(rg[r].sq),
                 camb |-> Cardinality(ScheduleSet({[infl |-> rg[r].infl, ready |-> rg[r].ready]}, rg[r].sq)) > 1]
     /\ UNCHANGED <<vis, opx, hmode, fs, dur, tw, tdur, bufs, nticks, ncrash>>
+
+\* A submit entry point returned Err: Submitter::submit_with_args with a malformed timespec (validated
+\* before anything is touched: the SQ keeps its entries), or any submit on a ring wiped by a crash.
+SubmitFail(r) ==
+    /\ Ready0 /\ r \in 1..Len(rg) /\ ~rg[r].gone
+    /\ last' = [a |-> "submitbad", r |-> r]
+    /\ UNCHANGED <<pvars, ivars>>
 
 RECURSIVE ReadyLen(_)
 ReadyLen(rd) == IF rd = <<>> THEN 0 ELSE Cardinality(Head(rd)) + ReadyLen(Tail(rd))
@@ -325,6 +332,8 @@ PushCancel(r, tgt, bad)             == "cancel" \in Kinds /\ PushMC(r, "cancel",
 SubmitMC(r)  == r \in 1..Len(rg) /\ rg[r].sq # <<>> /\ Submit(r)
 SyncMC(r)    == ~(last.a = "sync" /\ last.r = r) /\ SyncCq(r)
 PopNoneMC(r) == ~(last.a = "pop" /\ last.r = r /\ ~last.some) /\ PopNone(r)
+SubmitBadMC(r) == "submitbad" \in CtlOps /\ r \in 1..Len(rg) /\ rg[r].alive /\ rg[r].sq # <<>>
+                    /\ last.a # "submitbad" /\ SubmitFail(r)
 DropRingMC(r) == "dropring" \in CtlOps /\ DropRing(r)
 CloseMC(f)   == "close" \in CtlOps /\ CloseFile(f)
 OpenMC(f, m) == "open" \in CtlOps /\ f \in 1..Len(fh) /\ fh[f].gen < 3 /\ OpenFile(f, m)   \* at most two re-opens per file
@@ -342,6 +351,7 @@ NextNoEnd ==
     \/ \E r \in 1..MaxRings, bad \in BadFlags, tgt \in 1..MaxOps : PushCancel(r, tgt, bad)
     \/ \E r \in 1..MaxRings, u \in 1..MaxOps, lat \in LatChoices : PushDup(r, u, lat)
     \/ \E r \in 1..MaxRings : SubmitMC(r)
+    \/ \E r \in 1..MaxRings : SubmitBadMC(r)
     \/ \E r \in 1..MaxRings : SyncMC(r)
     \/ \E r \in 1..MaxRings : PopSome(r)
     \/ \E r \in 1..MaxRings : PopNoneMC(r)
